@@ -8,7 +8,7 @@ Import ListNotations.
 Inductive ctl : Set := CContinue | CSkip | CSkipAll.
 Inductive tag : Set :=
   | TgEm                                          (* one dynamic emission; children: a TgTracer per stacked tracer *)
-  | TgTracer (allow_re propagate hard_disabled : bool)   (* children: a TgHandler per handler of the event, definition order *)
+  | TgTracer (allow_re propagate hard_disabled multi : bool)   (* children: a TgHandler per handler of the event, definition order *)
   | TgHandler (id : N) (reentrant raises : bool) (c : ctl) (* children: what the handler body does if invoked (acts), then it raises
                                                      or returns nothing / Skip / SkipAll *)
   | TgRegion                                      (* with allow_reentrant_event_handling(): acts *)
@@ -19,9 +19,10 @@ Record st : Set := {
   fA : bool;               (* _allow_event_handling *)
   fR : bool;               (* _allow_reentrant_event_handling *)
   depth : nat;             (* handlers currently running *)
+  in_main : bool;          (* running in the main thread? (constant) *)
   log : list (nat * bool * N)  (* per handler invocation: handlers already running, opted-in?, handler occurrence id *)
 }.
-Definition set_flags (s : st) (a r : bool) : st := {| fA := a; fR := r; depth := depth s; log := log s |}.
+Definition set_flags (s : st) (a r : bool) : st := {| fA := a; fR := r; depth := depth s; in_main := in_main s; log := log s |}.
 
 (* ---- the inner loops of `run`, named *)
 Definition aloop_of (f : node -> st -> bool * st) : list node -> st -> bool * st :=
@@ -33,9 +34,9 @@ Definition aloop_of (f : node -> st -> bool * st) : list node -> st -> bool * st
 
 Definition invoke (f : node -> st -> bool * st) (id : N) (allow_re reentrant : bool) (acts : list node) (s : st) : bool * st :=
   let opted := fR s || (allow_re && reentrant) in
-  let s_in := {| fA := fA s; fR := fR s; depth := S (depth s); log := log s ++ [(depth s, opted, id)] |} in
+  let s_in := {| fA := fA s; fR := fR s; depth := S (depth s); in_main := in_main s; log := log s ++ [(depth s, opted, id)] |} in
   let '(r, s_out) := aloop_of f acts s_in in
-  (r, {| fA := fA s_out; fR := fR s_out; depth := depth s; log := log s_out |}).
+  (r, {| fA := fA s_out; fR := fR s_out; depth := depth s; in_main := in_main s; log := log s_out |}).
 
 Definition hloop_of (f : node -> st -> bool * st) (re_only allow_re propagate : bool) : list node -> st -> nat * st :=
   fix hloop (hs : list node) (s : st) {struct hs} : nat * st :=
@@ -54,8 +55,9 @@ Definition tloop_of (f : node -> st -> bool * st) (is_re re_only : bool) : list 
   fix tloop (ts : list node) (s : st) {struct ts} : bool * st :=
     match ts with
     | [] => (false, s)
-    | Node (TgTracer allow_re propagate hard_disabled) handlers :: ts' =>
-        if is_re && negb allow_re && negb (fR s) then tloop ts' s
+    | Node (TgTracer allow_re propagate hard_disabled multi) handlers :: ts' =>
+        if negb (in_main s) && negb multi then tloop ts' s        (* thread check *)
+        else if is_re && negb allow_re && negb (fR s) then tloop ts' s
         else if hard_disabled then tloop ts' s
         else
           let '(res, s') := hloop_of f re_only allow_re propagate handlers s in
@@ -80,7 +82,8 @@ Fixpoint run (n : node) (s : st) {struct n} : bool * st :=
   | Node _ _ => (false, s)
   end.
 
-Definition st0 : st := {| fA := true; fR := false; depth := 0; log := [] |}.
+Definition st0 : st := {| fA := true; fR := false; depth := 0; in_main := true; log := [] |}.
+Definition st0_worker : st := {| fA := true; fR := false; depth := 0; in_main := false; log := [] |}.
 
 (* a sequence of top-level emissions (program statements) *)
 Fixpoint run_all (ns : list node) (s : st) : list bool * st :=
